@@ -512,6 +512,7 @@ func workerMain() {
 				c, _ = hex.DecodeString(j.Hex)
 				kind = "block"
 			}
+			bigAlloc := false
 			if c == nil {
 				agg.Skipped++
 			} else {
@@ -521,12 +522,13 @@ func workerMain() {
 				} else {
 					r = evalBlock(c, dohash)
 				}
+				bigAlloc = r.Alloc > 32<<20
 				agg.Evals++
 				agg.Classes[r.Class]++
 				if r.Shape != "" {
 					agg.Shapes[r.Class+"|"+r.Shape]++
 				}
-				if r.Acc {
+				if r.Acc && strings.HasPrefix(r.Class, "ref=ok/") {
 					if f := float64(r.Alloc) / float64(allocBound(r.Len)); f > agg.MaxFrac {
 						agg.MaxFrac = f
 						agg.MaxFracHx = hex.EncodeToString(c)
@@ -551,8 +553,15 @@ func workerMain() {
 					}
 				}
 			}
-			if (i+1-batchLo) >= 256 || i+1 == j.Hi {
+			if (i+1-batchLo) >= 256 || i+1 == j.Hi || bigAlloc {
 				emit(i + 1)
+			}
+			if bigAlloc && j.Kind != "rawtx" && j.Kind != "rawblock" {
+				// A decode that allocated hundreds of megabytes leaves a heap whose reuse costs
+				// zeroing and GC scanning, and makes later out-of-memory deaths depend on
+				// history: retire, the parent continues the job in a fresh worker.
+				out.Write([]byte("Q\n"))
+				os.Exit(0)
 			}
 		}
 		out.Write([]byte("D\n"))
